@@ -26,6 +26,8 @@ func init() {
 			{"C14.POSITION", "zzControlBadCursorC14", true},
 			{"C14.POSITION", "zzControlGoodCursorC14", false},
 			{"C14.SEEKTAG", "zzControlBadCursorC14", true},
+			{"C14.DIRCMP", "zzControlBad_C14_DIRCMP", true},
+			{"C14.DIRCMP", "zzControlGood_C14_DIRCMP", false},
 		},
 	})
 }
@@ -355,6 +357,8 @@ func ownerOf(addr ssa.Value, cts map[*types.Named]bool) *types.Named {
 func rulesC14(c *Ctx) {
 	p := c.P
 	ruleC14Thread(c)
+	ruleC14SeekAbsolute(c)
+	ruleC14DirCompare(c)
 	cts := c.cursorTypes()
 	c.Note(fmt.Sprintf("cursor types found: %d", len(cts)))
 	kp := newKeyProv(c)
@@ -1185,4 +1189,165 @@ func ruleC14Thread(c *Ctx) {
 	}
 	c.CallSites(n)
 	c.Floor("C14.THREAD", 6)
+}
+
+// ruleC14SeekAbsolute: Seek(v) positions the cursor on the first element >= v whatever its state was
+// before — also when it had run off the end.  A Seek that delegates to an underlying cursor's Seek does so
+// on every path, except where it has found that the underlying cursor cannot seek (the failed type
+// assertion): no early return on the wrapper's own (in)validity comes first.
+func ruleC14SeekAbsolute(c *Ctx) {
+	p := c.P
+	n := 0
+	for _, fn := range c.prodFuncs("ast", "boltz", "objectz") {
+		if fn.Name() != "Seek" || fn.Signature.Recv() == nil || len(fn.Params) != 2 || fn.Parent() != nil {
+			continue
+		}
+		recv := ssa.Value(fn.Params[0])
+		var steps []ssa.CallInstruction
+		var ons []ssa.Value
+		for _, call := range callsIn(fn) {
+			cc := call.Common()
+			nm := ""
+			var on ssa.Value
+			if cc.IsInvoke() {
+				nm, on = cc.Method.Name(), cc.Value
+			} else if cal, _ := calleeOf(cc); cal != nil && len(cc.Args) > 0 {
+				nm, on = cal.Name(), cc.Args[0]
+			}
+			if nm == "Seek" && on != recv {
+				steps = append(steps, call)
+				ons = append(ons, on)
+			}
+		}
+		if len(steps) == 0 {
+			continue
+		}
+		n++
+		c.Analysed(FnName(fn))
+		fi := factsOf(fn)
+		isStep := func(in ssa.Instruction) bool {
+			for _, s := range steps {
+				if in == ssa.Instruction(s) {
+					return true
+				}
+			}
+			return false
+		}
+		ok := noPathAvoiding(fn, isStep, func(from, to *ssa.BasicBlock) bool {
+			for f := range fi.edgeFacts(from, to) {
+				// there is no underlying cursor (nothing to iterate)
+				if f.Kind == "nonnil" && !f.Pol {
+					for _, on := range ons {
+						if f.V == on {
+							return true
+						}
+						ff, fb := loadedField(f.V)
+						of, ob := loadedField(on)
+						if ff != nil && sameVar(ff, of) && fb == ob {
+							return true
+						}
+					}
+				}
+				if f.Kind != "true" || f.Pol {
+					continue
+				}
+				if ex, isEx := f.V.(*ssa.Extract); isEx && ex.Index == 1 {
+					if ta, isTA := ex.Tuple.(*ssa.TypeAssert); isTA && ta.CommaOk {
+						return true // the underlying cursor is not seekable: the scan-forward fallback
+					}
+				}
+			}
+			return false
+		})
+		c.Check(ok, "C14.SEEKABSOLUTE", FnName(fn), p.Pos(fn.Pos()), "the underlying cursor is re-seeked on every path (except the not-seekable fallback)", "a return is reachable without seeking the underlying cursor although it can seek (for instance an early return while the cursor is exhausted): after running off the end, Seek(v) leaves the cursor invalid instead of on the first element >= v")
+	}
+	c.CallSites(n)
+	c.Floor("C14.SEEKABSOLUTE", 2)
+}
+
+// ruleC14DirCompare: where a direction is in scope (a parameter or captured variable named forward), a
+// loop that advances a cursor until its key passes a bound (an ordering test on bytes.Compare) is only
+// right for one direction: the test must be combined with the direction, or sit on a path where the
+// direction is known.
+func ruleC14DirCompare(c *Ctx) {
+	p := c.P
+	bcmp := p.ExtFunc("bytes", "Compare")
+	n := 0
+	for _, fn := range c.prodFuncs("ast", "boltz", "objectz") {
+		// the direction in scope
+		var dir []ssa.Value
+		for _, prm := range fn.Params {
+			if prm.Name() == "forward" && isBoolType(prm.Type()) {
+				dir = append(dir, prm)
+			}
+		}
+		for _, fv := range fn.FreeVars {
+			if fv.Name() == "forward" {
+				dir = append(dir, fv)
+			}
+		}
+		// ... or of an enclosing function (a closure that does not even capture the direction cannot depend on it)
+		inScope := len(dir) > 0
+		for anc := fn.Parent(); anc != nil && !inScope; anc = anc.Parent() {
+			for _, prm := range anc.Params {
+				if prm.Name() == "forward" && isBoolType(prm.Type()) {
+					inScope = true
+				}
+			}
+			for _, fv := range anc.FreeVars {
+				if fv.Name() == "forward" {
+					inScope = true
+				}
+			}
+		}
+		if !inScope {
+			continue
+		}
+		isDir := func(v ssa.Value) bool {
+			for _, d := range dir {
+				if v == d {
+					return true
+				}
+				if u, ok := v.(*ssa.UnOp); ok && u.Op == token.MUL && u.X == d {
+					return true
+				}
+			}
+			return false
+		}
+		fi := factsOf(fn)
+		loops := loopsOf(fn)
+		for _, b := range fn.Blocks {
+			for _, in := range b.Instrs {
+				bo, ok := in.(*ssa.BinOp)
+				if !ok {
+					continue
+				}
+				switch bo.Op {
+				case token.LSS, token.GTR, token.LEQ, token.GEQ:
+				default:
+					continue
+				}
+				call, isCall := bo.X.(*ssa.Call)
+				if !isCall || !isCallTo(call, bcmp) {
+					continue
+				}
+				if innermostLoop(loops, b) == nil {
+					continue
+				}
+				n++
+				// combined with the direction: (cmp < 0) == forward, or under a fact on the direction
+				combined := false
+				for _, r := range *bo.Referrers() {
+					if cmp2, isB := r.(*ssa.BinOp); isB && (cmp2.Op == token.EQL || cmp2.Op == token.NEQ) && (isDir(cmp2.X) || isDir(cmp2.Y)) {
+						combined = true
+					}
+				}
+				if !combined {
+					combined = fi.HoldsWhere(b, func(f Fact) bool { return f.Kind == "true" && isDir(f.V) })
+				}
+				c.Check(combined, "C14.DIRCMP", FnName(fn)+": ordering test on keys", p.Pos(bo.Pos()), "the ordering test is combined with the direction in scope", "a loop orders cursor keys with bytes.Compare "+bo.Op.String()+" 0 although this function can run in either direction (forward in scope) and the test does not depend on it: in reverse the cursors are advanced the wrong way (elements skipped or the merge never terminates on a match)")
+			}
+		}
+	}
+	c.CallSites(n)
 }
